@@ -644,16 +644,13 @@ package serf
 //@   ensures wf: wfQueries(s)
 //@ end
 
-// query responses are handled under their own contract (C07)
-//@ func (s *Serf) handleQueryResponse(resp *messageQueryResponse)
-//@   trusted
-//@ end
 
 // ---------------------------------------------------------------- gossip re-broadcast decision (C04)
 
 //@ func (d *delegate) NotifyMsg(buf []byte)
 //@   requires wf: d != nil && d.serf != nil && wfSerf(d.serf) && wfEvents(d.serf) && wfQueries(d.serf) && hasMember(d.serf, d.serf.config.NodeName)
 //@   requires eventch_open: d.serf.config.EventCh == nil || !closed(d.serf.config.EventCh)
+//@   requires running_queries: wfRunningQueries(d.serf)
 //@   oldlet q0 := logN("queued")
 //@   oldlet c0 := callN()
 //@   let queued := logN("queued") - q0
@@ -957,6 +954,112 @@ package serf
 //@   oldlet c0 := callN()
 //@   ensures forward [C34]: s.state >= old(s.state)
 //@   ensures refused_once_leaving [C34]: old(s.state) != SerfAlive ==> err != nil && n == 0 && callN() == c0
+//@ end
+
+// ---------------------------------------------------------------- query reply streams (C07)
+
+// the dedup sets and the closed flag are only touched with closeLock held
+//@ guards QueryResponse.closeLock: QueryResponse.closed, QueryResponse.acks, QueryResponse.responses
+
+// Invariant of a query's reply streams whenever closeLock is free: every reply put on a stream is recorded in the
+// stream's dedup set, no node appears twice on a stream, and the streams are closed exactly when the query is.
+//@ pure func wfReplies(r *QueryResponse) bool {
+//@   return r != nil && r.respCh != nil && r.responses != nil && (r.ackCh != nil ==> r.acks != nil) &&
+//@     distinctRefs(r.ackCh, r.respCh) &&
+//@     r.closed == closed(r.respCh) && (r.ackCh != nil ==> r.closed == closed(r.ackCh)) &&
+//@     forall(func(j int) bool { return 0 <= j && j < sentN(r.respCh) ==> mapHas(r.responses, sentAt(r.respCh, j).From) }) &&
+//@     forall2(func(j, j2 int) bool { return 0 <= j && j < j2 && j2 < sentN(r.respCh) ==> sentAt(r.respCh, j).From != sentAt(r.respCh, j2).From }) &&
+//@     (r.ackCh != nil ==> forall(func(j int) bool { return 0 <= j && j < sentN(r.ackCh) ==> mapHas(r.acks, sentAt(r.ackCh, j)) })) &&
+//@     (r.ackCh != nil ==> forall2(func(j, j2 int) bool { return 0 <= j && j < j2 && j2 < sentN(r.ackCh) ==> sentAt(r.ackCh, j) != sentAt(r.ackCh, j2) }))
+//@ }
+
+//@ func (r *QueryResponse) sendResponse(nr NodeResponse) (err error)
+//@   requires wf: wfReplies(r)
+//@   oldlet n0 := sentN(r.respCh)
+//@   oldlet dup := mapHas(r.responses, nr.From)
+//@   oldlet was_closed := r.closed
+//@   ensures wf [C07]: wfReplies(r)
+//@   ensures nothing_after_close [C07]: was_closed ==> sentN(r.respCh) == n0 && err == nil
+//@   ensures at_most_one_per_node [C07]: dup ==> sentN(r.respCh) == n0
+//@   ensures delivered_or_dropped [C07]: sentN(r.respCh) == n0 || (sentN(r.respCh) == n0+1 && same(sentAt(r.respCh, n0), nr) && err == nil)
+//@   ensures drop_is_reported [C07]: !was_closed && !dup && sentN(r.respCh) == n0 ==> err != nil
+//@   ensures other_stream_untouched [C07]: r.ackCh != nil ==> sentN(r.ackCh) == old(sentN(r.ackCh))
+//@   ensures not_closed_here [C07]: r.closed == was_closed
+//@   # frame: no other stream and no other dedup set is touched
+//@   ensures frame_resp_streams [C07]: forall(func(ch chan<- NodeResponse) bool { return !same(ch, r.respCh) ==> sentN(ch) == old(sentN(ch)) })
+//@   ensures frame_resp_records [C07]: forall2(func(ch chan<- NodeResponse, j int) bool { return !same(ch, r.respCh) || j < n0 ==> same(sentAt(ch, j), old(sentAt(ch, j))) })
+//@   ensures frame_ack_streams [C07]: forall(func(ch chan<- string) bool { return distinctRefs(ch, r.respCh) ==> sentN(ch) == old(sentN(ch)) })
+//@   ensures frame_ack_records [C07]: forall2(func(ch chan<- string, j int) bool { return distinctRefs(ch, r.respCh) ==> sentAt(ch, j) == old(sentAt(ch, j)) })
+//@   ensures frame_sets [C07]: forall2(func(m map[string]struct{}, k string) bool { return !same(m, r.responses) || k != nr.From ==> mapHas(m, k) == old(mapHas(m, k)) })
+//@ end
+
+//@ func (r *QueryResponse) sendAck(nr *messageQueryResponse) (err error)
+//@   requires wf: wfReplies(r) && nr != nil
+//@   oldlet n0 := sentN(r.ackCh)
+//@   oldlet dup := mapHas(r.acks, nr.From)
+//@   oldlet was_closed := r.closed
+//@   ensures wf [C07]: wfReplies(r)
+//@   ensures nothing_after_close [C07]: was_closed ==> (r.ackCh != nil ==> sentN(r.ackCh) == n0) && err == nil
+//@   ensures at_most_one_per_node [C07]: dup && r.ackCh != nil ==> sentN(r.ackCh) == n0
+//@   ensures delivered_or_dropped [C07]: r.ackCh != nil ==> sentN(r.ackCh) == n0 || (sentN(r.ackCh) == n0+1 && sentAt(r.ackCh, n0) == nr.From && err == nil)
+//@   ensures other_stream_untouched [C07]: sentN(r.respCh) == old(sentN(r.respCh))
+//@   ensures not_closed_here [C07]: r.closed == was_closed
+//@   ensures frame_ack_streams [C07]: forall(func(ch chan<- string) bool { return r.ackCh == nil || !same(ch, r.ackCh) ==> sentN(ch) == old(sentN(ch)) })
+//@   ensures frame_ack_records [C07]: forall2(func(ch chan<- string, j int) bool { return r.ackCh == nil || !same(ch, r.ackCh) || j < n0 ==> sentAt(ch, j) == old(sentAt(ch, j)) })
+//@   ensures frame_resp_streams [C07]: forall(func(ch chan<- NodeResponse) bool { return distinctRefs(ch, r.ackCh) ==> sentN(ch) == old(sentN(ch)) })
+//@   ensures frame_resp_records [C07]: forall2(func(ch chan<- NodeResponse, j int) bool { return distinctRefs(ch, r.ackCh) ==> same(sentAt(ch, j), old(sentAt(ch, j))) })
+//@   ensures frame_sets [C07]: forall2(func(m map[string]struct{}, k string) bool { return !same(m, r.acks) || k != nr.From ==> mapHas(m, k) == old(mapHas(m, k)) })
+//@ end
+
+//@ func (r *QueryResponse) Close()
+//@   requires wf: wfReplies(r)
+//@   ensures wf [C07]: wfReplies(r)
+//@   ensures both_streams_closed [C07]: r.closed && closed(r.respCh) && (r.ackCh != nil ==> closed(r.ackCh))
+//@   ensures nothing_sent [C07]: sentN(r.respCh) == old(sentN(r.respCh)) && (r.ackCh != nil ==> sentN(r.ackCh) == old(sentN(r.ackCh)))
+//@ end
+
+//@ func (r *QueryResponse) Finished() (fin bool)
+//@   requires receiver: r != nil
+//@   ensures closed_is_finished [C07]: r.closed ==> fin
+//@ end
+//@ func (r *QueryResponse) acked(from string) (ok bool)
+//@   requires receiver: r != nil
+//@   ensures reads_set [C07]: ok == mapHas(r.acks, from)
+//@ end
+//@ func (r *QueryResponse) responded(from string) (ok bool)
+//@   requires receiver: r != nil
+//@   ensures reads_set [C07]: ok == mapHas(r.responses, from)
+//@ end
+
+// every registered query has well-formed reply streams, and two registered queries never share a stream
+//@ pure func wfRunningQueries(s *Serf) bool {
+//@   return s != nil && s.queryResponse != nil &&
+//@     forall(func(t LamportTime) bool { return mapHas(s.queryResponse, t) ==> wfReplies(mapAt(s.queryResponse, t)) && allocated(mapAt(s.queryResponse, t)) }) &&
+//@     forall2(func(t, u LamportTime) bool { return mapHas(s.queryResponse, t) && mapHas(s.queryResponse, u) && t != u ==>
+//@       mapAt(s.queryResponse, t) != mapAt(s.queryResponse, u) && mapAt(s.queryResponse, t).respCh != mapAt(s.queryResponse, u).respCh &&
+//@       (mapAt(s.queryResponse, t).ackCh != nil ==> mapAt(s.queryResponse, t).ackCh != mapAt(s.queryResponse, u).ackCh) &&
+//@       !same(mapAt(s.queryResponse, t).responses, mapAt(s.queryResponse, u).responses) &&
+//@       (mapAt(s.queryResponse, t).acks != nil ==> !same(mapAt(s.queryResponse, t).acks, mapAt(s.queryResponse, u).acks)) &&
+//@       !same(mapAt(s.queryResponse, t).responses, mapAt(s.queryResponse, u).acks) &&
+//@       distinctRefs(mapAt(s.queryResponse, t).respCh, mapAt(s.queryResponse, u).ackCh) })
+//@ }
+
+//@ func (s *Serf) handleQueryResponse(resp *messageQueryResponse)
+//@   requires wf: wfRunningQueries(s) && resp != nil
+//@   oldlet running := mapHas(s.queryResponse, resp.LTime)
+//@   oldlet q := mapAt(s.queryResponse, resp.LTime)
+//@   oldlet mine := running && q.id == resp.ID
+//@   ensures wf [C07]: wfRunningQueries(s)
+//@   # only the query the reply is addressed to (same Lamport time and same ID) can receive anything
+//@   ensures only_its_query_resp [C07]: forall(func(ch chan<- NodeResponse) bool { return !(mine && same(ch, q.respCh)) && distinctRefs(ch, q.ackCh) ==> sentN(ch) == old(sentN(ch)) })
+//@   ensures only_its_query_ack [C07]: forall(func(ch chan<- string) bool { return !(mine && q.ackCh != nil && same(ch, q.ackCh)) && distinctRefs(ch, q.respCh) ==> sentN(ch) == old(sentN(ch)) })
+//@   # an ack goes to the ack stream, a response to the response stream, at most one record in all
+//@   ensures ack_or_response [C07]: mine ==> (resp.Ack() ==> sentN(q.respCh) == old(sentN(q.respCh))) &&
+//@       (!resp.Ack() && q.ackCh != nil ==> sentN(q.ackCh) == old(sentN(q.ackCh))) &&
+//@       sentN(q.respCh) <= old(sentN(q.respCh))+1 && (q.ackCh != nil ==> sentN(q.ackCh) <= old(sentN(q.ackCh))+1)
+//@   ensures response_carries_reply [C07]: mine && sentN(q.respCh) == old(sentN(q.respCh))+1 ==>
+//@       sentAt(q.respCh, old(sentN(q.respCh))).From == resp.From && sameSlice(sentAt(q.respCh, old(sentN(q.respCh))).Payload, resp.Payload)
+//@   ensures nothing_after_close [C07]: mine && old(q.closed) ==> sentN(q.respCh) == old(sentN(q.respCh)) && (q.ackCh != nil ==> sentN(q.ackCh) == old(sentN(q.ackCh)))
 //@ end
 
 // END-OF-CONTRACTS
